@@ -142,6 +142,8 @@ pub enum Act {
     IncAllow { by: u8, amt: u8 },
     /// MemberChangedHook sent to the flex multisig directly by somebody who is not its group
     HookDirect { by: u8 },
+    /// the group admin unregisters (false) / registers (true) the multisig as a hook of its group
+    GroupHook { add: bool },
 }
 
 #[derive(Clone, Debug, Default)]
@@ -201,6 +203,8 @@ pub struct Cfg {
     /// block time step in nanoseconds (DT seconds by default; sub-second in the configurations that put the
     /// expiry instant inside a second)
     pub tick_ns: u64,
+    /// the group admin may unregister / re-register the multisig as a hook at any time (hooked configurations)
+    pub hook_toggle: bool,
 }
 
 impl Cfg {
@@ -238,6 +242,7 @@ impl Cfg {
             exec_iff: false,
             hooked: false,
             tick_ns: DT * NS,
+            hook_toggle: false,
         }
     }
     /// An actor named "^X" is the account X spelled in upper case (voter lists naming one account twice)
@@ -916,6 +921,7 @@ fn label(a: &Act) -> String {
         Act::Advance => "AdvanceBlock",
         Act::GroupUpdate { .. } => "GroupUpdateMembers",
         Act::HookDirect { .. } => "MemberChangedHookDirect",
+        Act::GroupHook { .. } => "GroupAddOrRemoveHook",
         Act::Fund => "FundMultisig",
         Act::SinkFail { .. } => "ToggleReceiverFailure",
         Act::IncAllow { .. } => "Cw20IncreaseAllowance",
@@ -1077,6 +1083,10 @@ impl Model for Cw3Model {
         if cfg.hooked && !s.r.props.is_empty() {
             out.push(Act::HookDirect { by: cfg.group_admin });
         }
+        if cfg.hooked && cfg.hook_toggle {
+            out.push(Act::GroupHook { add: false });
+            out.push(Act::GroupHook { add: true });
+        }
         if s.r.funded < cfg.max_fund {
             out.push(Act::Fund);
         }
@@ -1153,6 +1163,11 @@ impl Model for Cw3Model {
                     r.edits += 1;
                 }
             }
+            Act::GroupHook { add } => {
+                let m = if *add { cw4_group::msg::ExecuteMsg::AddHook { addr: msa.clone() } } else { cw4_group::msg::ExecuteMsg::RemoveHook { addr: msa.clone() } };
+                let o = w.execute_json(&cfg.addr(cfg.group_admin), &group(), &m, &[]);
+                ok = o.ok();
+            }
             Act::HookDirect { by } => {
                 // claims that every snapshot voter lost its weight
                 let diffs: Vec<cw4::MemberDiff> = r.group_start.iter().map(|(i, wg)| cw4::MemberDiff::new(cfg.addr(*i), Some(*wg), None)).collect();
@@ -1197,6 +1212,9 @@ impl Model for Cw3Model {
                 ok = o.ok();
                 out_tx = Some(o);
             }
+        }
+        if !ok && std::env::var_os("MC_TRACE").is_some() {
+            eprintln!("MC_TRACE {a:?} refused: {}", out_tx.as_ref().map(|o| o.err()).unwrap_or_default());
         }
         // a refused call leaves the world untouched (kernel commit rule, checked by fingerprint): its
         // observation is the previous one
@@ -1536,6 +1554,18 @@ impl Model for Cw3Model {
                         }
                     }
                 }
+            }
+        }
+        if std::env::var_os("MC_TRACE").is_some() {
+            if let Some(inst) = w.contracts.get(&msa) {
+                for (k, val) in inst.store.0.iter() {
+                    if k.windows(9).any(|x| x == b"proposals") && !k.windows(14).any(|x| x == b"proposal_count") {
+                        eprintln!("MC_TRACE raw {}", String::from_utf8_lossy(val));
+                    }
+                }
+            }
+            for po in &obs.props {
+                eprintln!("MC_TRACE after {a:?}: proposal {} status {:?} th {:?} total {} tally {:?} expires {:?}", po.id, po.status, po.th, po.total, po.tally(), po.expires);
             }
         }
         self.check_state(&w, &r, &obs, &mut v);
